@@ -944,3 +944,73 @@ def r8(R):
     for v in vs:
         R.violation(v.node, v.message, g, v.path)
     R.require(nreads[0] >= 1, 'cp() no longer reads from its source')
+
+
+# ------------------------------------------------------------------ C01.R9
+@rule('C01.R9', 'the connection hands EVERY commit to the storage\'s vote: '
+      'the only way round it is a storage that has no tpc_vote (the storage '
+      'fixes where the transaction ends in its vote; a finish without vote '
+      'moves the end of the data to position 0)', props=['C05'],
+      min_instances=1)
+def r9(R):
+    cls = R.prog.cls('ZODB.Connection.Connection')
+    f = R.method(cls, 'tpc_vote')
+    g, b, F = R.cfg(f, cls, max_depth=0)
+    # returns inside `except AttributeError:` -- the storage has no vote
+    exempt = set()
+    for t in walk_local(f.node):
+        if isinstance(t, ast.Try):
+            for h in t.handlers:
+                if h.type is not None and any(
+                        isinstance(x, ast.Name) and x.id == 'AttributeError'
+                        for x in ast.walk(h.type)):
+                    exempt |= {id(x) for s_ in h.body for x in ast.walk(s_)
+                               if isinstance(x, ast.Return)}
+    # the vote, by role: a call of `<storage>.tpc_vote`, directly or
+    # through a local bound to that attribute
+    aliases = {t.id for a in walk_local(f.node)
+               if isinstance(a, ast.Assign) and isinstance(
+                   a.value, ast.Attribute) and a.value.attr == 'tpc_vote'
+               for t in a.targets if isinstance(t, ast.Name)}
+    seen = [0]
+
+    def votes(node):
+        for op in F.ops(node):
+            if op.kind != 'call' or not isinstance(op.ast, ast.Call):
+                continue
+            fn = op.ast.func
+            if isinstance(fn, ast.Attribute) and fn.attr == 'tpc_vote':
+                return True
+            if isinstance(fn, ast.Name) and fn.id in aliases:
+                return True
+            if op.path is not None and op.path[-1] == 'tpc_vote':
+                return True
+        return False
+
+    def edge(node, st, lab, tgt):
+        if votes(node):
+            seen[0] += 1
+            return True
+        if node.kind == 'return' and id(node.ast) in exempt:
+            return True
+        return st
+
+    def at(node, st):
+        if node.id == g.exit_return and not st:
+            return Violation(
+                'Connection.tpc_vote can return without having called the '
+                'storage\'s tpc_vote: the transaction is finished without a '
+                'vote.  FileStorage fixes the end of the transaction in its '
+                'vote (_nextpos); its finish then sets the end of the data '
+                'to 0 -- the commit returns, and the next one is written '
+                'over the beginning of the file')
+        return st
+
+    vs, stats = explore(g, False, at=at, edge=edge)
+    R.count(stats)
+    R.instance('Connection.tpc_vote', vote_calls=seen[0])
+    R.require(seen[0] >= 1, 'Connection.tpc_vote no longer calls the '
+              'storage\'s tpc_vote')
+    for v in vs[:1]:
+        R.violation(v.node, v.message, g, v.path, at_root=True,
+                    key='commit finished without the storage\'s vote')
